@@ -2,6 +2,7 @@ package rules
 
 import (
 	"fmt"
+	"go/token"
 	"go/types"
 	"strings"
 
@@ -524,5 +525,36 @@ func (e *ev) checkAsException(c *core.Ctx) {
 		})
 		// and the panic is guarded by err != nil (no panic on nil)
 		c.Check(good && errIdx >= 0, "R4", "utils."+name+"/panic-value", p.Pos(fn.Pos()), "panics with the error value itself", "utils."+name+" does not panic with the error value itself (transport errors lose their identity before reaching invokeMethod)")
+		// and it raises for every non-nil error: a normal return is reachable only through the err == nil side
+		if errIdx >= 0 {
+			errPrm := ssa.Value(fn.Params[errIdx])
+			nilSide := map[[2]*ssa.BasicBlock]bool{}
+			for _, ifi := range core.Ifs(fn) {
+				cd := core.CondOf(ifi)
+				if cd.Op != token.EQL && cd.Op != token.NEQ {
+					continue
+				}
+				x, y := cd.X, cd.Y
+				if core.IsNilConst(x) {
+					x, y = y, x
+				}
+				if x != errPrm || !core.IsNilConst(y) {
+					continue
+				}
+				side := cd.True
+				if cd.Op == token.NEQ {
+					side = cd.False
+				}
+				nilSide[[2]*ssa.BasicBlock{ifi.Block(), side}] = true
+			}
+			c.Instance("R4")
+			tgt, path := core.Search(nil, fn.Blocks[0], func(x ssa.Instruction) core.Action {
+				if core.IsNormalReturn(x) {
+					return core.Target
+				}
+				return core.Continue
+			}, func(a, b *ssa.BasicBlock) bool { return !nilSide[[2]*ssa.BasicBlock{a, b}] })
+			c.Check(tgt == nil, "R4", "utils."+name+"/raises-on-every-error", p.Pos(fn.Pos()), "returns normally only when the error is nil", "utils."+name+" can return normally with a non-nil error (a failed or partial transport read/write is treated as success: no exception is routed, the stream continues after a truncated message)", p.PathString(path, tgt)...)
+		}
 	}
 }
